@@ -120,16 +120,8 @@ Proof. vm_compute. reflexivity. Qed.
 (* ------------------------------------------------------------------------------------------ *)
 (** * HITS wrapper *)
 
-Lemma count_zero (f : Q -> bool) l : (forall x, In x l -> f x = false) -> count f l = 0.
-Proof.
-  unfold count. induction l as [|x l IH]; intros H; [reflexivity|]. cbn [filter].
-  rewrite (H x (or_introl eq_refl)). apply IH. intros y Hy. apply H. right. exact Hy.
-Qed.
-
 Lemma Qltb_false_le a b : Qltb a b = false <-> (b <= a)%Q.
-Proof.
-  unfold Qltb. rewrite negb_false_iff. apply Qle_bool_iff.
-Qed.
+Proof. unfold Qltb. rewrite negb_false_iff. apply Qle_bool_iff. Qed.
 
 Lemma Forall2_map_l {A} (R : Q -> A -> Prop) (f : A -> Q) (g : A -> A) l :
   (forall x, In x l -> R (f x) (g x)) -> Forall2 R (map f l) (map g l).
@@ -139,34 +131,53 @@ Proof.
   - apply IH. intros y Hy. apply H. right. exact Hy.
 Qed.
 
+Lemma sumq_nonneg_list u : (forall x, In x u -> (0 <= x)%Q) -> (0 <= sumq u)%Q.
+Proof.
+  induction u as [|a u IH]; intros H; [cbn; lra|]. rewrite sumq_cons.
+  assert (H1 := H a (or_introl eq_refl)). assert (H2 := IH (fun x Hx => H x (or_intror Hx))). lra.
+Qed.
+
+Lemma sumq_zero_all u : (forall x, In x u -> (0 <= x)%Q) -> (sumq u <= 0)%Q -> forall x, In x u -> (x <= 0)%Q.
+Proof.
+  induction u as [|a u IH]; intros H Hs x Hx; [contradiction|]. rewrite sumq_cons in Hs.
+  assert (H1 := H a (or_introl eq_refl)). assert (H2 := sumq_nonneg_list u (fun y Hy => H y (or_intror Hy))).
+  destruct Hx as [->|Hx]; [lra|]. apply (IH (fun y Hy => H y (or_intror Hy))); [lra|exact Hx].
+Qed.
+
+Lemma sumq_nonpos_list u : (forall x, In x u -> (x <= 0)%Q) -> (sumq u <= 0)%Q.
+Proof.
+  induction u as [|a u IH]; intros H; [cbn; lra|]. rewrite sumq_cons.
+  assert (H1 := H a (or_introl eq_refl)). assert (H2 := IH (fun x Hx => H x (or_intror Hx))). lra.
+Qed.
+
 (** If the singular vector returned by the solver has entries of one sign (Perron vector, up to the
     solver's arbitrary sign), the wrapper returns its entrywise absolute value. *)
 Theorem hits_wrapper_proof (u : list Q) :
   (forall x, In x u -> (0 <= x)%Q) \/ (forall x, In x u -> (x <= 0)%Q) ->
   Forall2 Qeq (sign_fix u) (map Qabs u).
 Proof.
-  intros Hsign. unfold sign_fix.
-  rewrite <- (map_id u) at 3. rewrite map_map.
-  destruct Hsign as [Hpos|Hneg].
-  - assert (Hn : count (fun x => Qltb x 0) u = 0).
-    { apply count_zero. intros x Hx. apply Qltb_false_le. apply Hpos. exact Hx. }
-    rewrite Hn.
-    destruct (Nat.ltb 0 (count (fun x => Qltb 0 x) u)) eqn:E.
+  intros Hsign. unfold sign_fix, clip_pos, clip_neg.
+  rewrite <- (map_id u) at 4. rewrite map_map.
+  assert (Hnegcase : (forall x, In x u -> (x <= 0)%Q) ->
+            Forall2 Qeq (map (fun x => if Qltb (- x) 0 then 0%Q else (- x)%Q) u) (map (fun x => Qabs x) u)).
+  { intros Hneg. apply Forall2_map_l. intros x Hx. assert (H := Hneg x Hx).
+    assert (E2 : Qltb (- x) 0 = false) by (apply Qltb_false_le; lra). rewrite E2.
+    rewrite Qabs_neg by exact H. reflexivity. }
+  destruct (Qltb 0 (sumq u)) eqn:E.
+  - apply Qltb_lt in E. destruct Hsign as [Hpos|Hneg].
     + apply Forall2_map_l. intros x Hx. assert (H := Hpos x Hx).
       assert (E2 : Qltb x 0 = false) by (apply Qltb_false_le; exact H). rewrite E2.
       rewrite Qabs_pos by exact H. reflexivity.
-    + apply Nat.ltb_ge in E. assert (E0 : count (fun x => Qltb 0 x) u = 0) by lia.
-      apply Forall2_map_l. intros x Hx. assert (H := Hpos x Hx).
-      assert (Hx0 : (x <= 0)%Q).
-      { destruct (Qltb 0 x) eqn:E3; [|apply Qltb_false_le; exact E3]. exfalso.
-        unfold count in E0. assert (Hin : In x (filter (fun x => Qltb 0 x) u)) by (apply filter_In; split; assumption).
-        destruct (filter (fun x => Qltb 0 x) u); [contradiction|discriminate]. }
-      assert (E2 : Qltb (- x) 0 = false) by (apply Qltb_false_le; lra). rewrite E2.
-      rewrite Qabs_neg by exact Hx0. reflexivity.
-  - assert (Hp : count (fun x => Qltb 0 x) u = 0).
-    { apply count_zero. intros x Hx. apply Qltb_false_le. apply Hneg. exact Hx. }
-    rewrite Hp. assert (E : Nat.ltb (count (fun x => Qltb x 0) u) 0 = false) by (apply Nat.ltb_ge; lia). rewrite E.
-    apply Forall2_map_l. intros x Hx. assert (H := Hneg x Hx).
-    assert (E2 : Qltb (- x) 0 = false) by (apply Qltb_false_le; lra). rewrite E2.
-    rewrite Qabs_neg by exact H. reflexivity.
+    + exfalso. assert (H := sumq_nonpos_list u Hneg). lra.
+  - apply Qltb_false_le in E. destruct Hsign as [Hpos|Hneg].
+    + apply Hnegcase. apply (sumq_zero_all u Hpos E).
+    + apply Hnegcase. exact Hneg.
 Qed.
+
+(** Regression witness: round-off noise outside the dominant component outvoted the genuine entries. *)
+Theorem old_hits_sign_refuted_proof :
+  exists u : list Q,
+    u = [- (1 # 2); - (3 # 4); 1 # 100000000000000000; 1 # 100000000000000000; 1 # 100000000000000000]%Q /\
+    old_sign_fix u = [0; 0; 1 # 100000000000000000; 1 # 100000000000000000; 1 # 100000000000000000]%Q /\
+    sign_fix u = [1 # 2; 3 # 4; 0; 0; 0]%Q.
+Proof. eexists. split; [reflexivity|]. split; vm_compute; reflexivity. Qed.
